@@ -18,7 +18,9 @@ var injectKinds = []string{"goto", "labelled-break", "labelled-continue", "selec
 	// the construct without any yield of its own, directly in the generator body (not in a closure)
 	"select-break-noyield", "labelled-break-noyield", "goto-noyield", "defer-noyield", "select-default-noyield",
 	// constructs placed inside an otherwise trivial (non-yielding) loop of the generator body
-	"defer-in-plain-loop", "select-in-plain-loop", "labelled-range", "yield-as-value"}
+	"defer-in-plain-loop", "select-in-plain-loop", "labelled-range", "yield-as-value",
+	// constructs inside a range statement that stays native in a generator (pointer to array, function)
+	"defer-in-ptr-range", "defer-in-func-range", "select-in-ptr-range", "goto-in-func-range"}
 
 // rawInject returns the source text of the construct (placeholders as in templates).
 func rawInject(kind string, tag func() int, control bool) string {
@@ -72,6 +74,14 @@ func rawInject(kind string, tag func() int, control bool) string {
 		return fmt.Sprintf("ch9 := make(chan int, 2)\nch9 <- 1\nch9 <- 2\nfor i9 := 0; i9 < 3; i9++ {\n\tselect {\n\tcase v9 := <-ch9:\n\t\tif v9 == 2 {\n\t\t\tbreak\n\t\t}\n\t\tvrt.E(%d, v9)\n\tdefault:\n\t\tvrt.E(%d, i9)\n\t}\n}\n%s", tag(), tag(), y("83"))
 	case "labelled-range":
 		return fmt.Sprintf("L9:\n\tfor i9 := range 3 {\n\t\tfor {\n\t\t\tvrt.E(%d, i9)\n\t\t\tcontinue L9\n\t\t}\n\t}\n%s", tag(), y("82"))
+	case "defer-in-ptr-range":
+		return fmt.Sprintf("arr9 := [2]int{7, 8}\nfor i9 := range &arr9 {\n\tdefer vrt.E(%d, i9)\n\tvrt.E(%d, i9)\n}\n%s\nvrt.E(%d)", tag(), tag(), y("79"), tag())
+	case "defer-in-func-range":
+		return fmt.Sprintf("for v9 := range func(yield func(int) bool) {\n\t_ = yield(1) && yield(2)\n} {\n\tdefer vrt.E(%d, v9)\n}\n%s\nvrt.E(%d)", tag(), y("78"), tag())
+	case "select-in-ptr-range":
+		return fmt.Sprintf("ch9 := make(chan int, 2)\nch9 <- 1\nch9 <- 2\narr9 := [3]int{}\nfor i9 := range &arr9 {\n\tselect {\n\tcase v9 := <-ch9:\n\t\tif v9 == 2 {\n\t\t\tbreak\n\t\t}\n\t\tvrt.E(%d, v9)\n\tdefault:\n\t\tvrt.E(%d, i9)\n\t}\n}\n%s", tag(), tag(), y("77"))
+	case "goto-in-func-range":
+		return fmt.Sprintf("for v9 := range func(yield func(int) bool) {\n\t_ = yield(1) && yield(2)\n} {\n\tif v9 == 1 {\n\t\tgoto L9\n\t}\n\tvrt.E(%d, v9)\nL9:\n\tvrt.E(%d, v9)\n}\n%s", tag(), tag(), y("76"))
 	case "yield-as-value":
 		return "y9 := «Yield»[int]\ny9(81)\n«Yield»(80)"
 	case "defer-noyield":
